@@ -471,7 +471,16 @@ def main (args : List String) : IO UInt32 := do
               | _, _ => false
             if !stored then IO.println s!"{id} => cow-bad: the state named by the new header is not readable from the file as it is before the header write"
             else if !(rpost.runs.all (fun r => 2 ≤ r.1)) then IO.println s!"{id} => cow-bad: the new state owns a header page"
-            else IO.println s!"{id} => cow-ok writes={writes.length} owned={owned.length} newpages={rpost.reachPages.length}"
+            else
+            -- the copy-on-write structure (`SharedV` of `cow_commit_atomic`): every page of the new state was either
+            -- written by this commit or is a page of the state it began from (shared, already stored)
+            let written := writes.flatMap (fun w =>
+              let p0 := w.1 / pagesize
+              let p1 := (w.1 + w.2 - 1) / pagesize
+              (List.range (p1 + 1 - p0)).map (· + p0))
+            match rpost.reachPages.find? (fun p => !written.contains p && !owned.contains p) with
+            | some p => IO.println s!"{id} => cow-bad: page {p} of the new state was neither written by this commit nor a page of the state it began from"
+            | none => IO.println s!"{id} => cow-ok writes={writes.length} owned={owned.length} newpages={rpost.reachPages.length}"
         | _, _ => IO.println s!"{id} => cow-bad: no valid header before or after the commit"
       | _ => pure ()
     return 0
